@@ -1056,6 +1056,7 @@ type FullTriggerState struct {
 // ComputeFullTriggerState uses a map to collect channels with identical TriggerStates, so they
 // can be sent all together as one unit.
 func (ds *AnySource) ComputeFullTriggerState() []FullTriggerState {
+	verifPoint("own:triggers-read")
 	verifAccess("procs", false)
 
 	result := make(map[TriggerState][]int)
